@@ -11,23 +11,24 @@ NOT_APPLICABLE = {}
 
 PROPS = {
     "C16": dict(
-        level_text="Proof: every relational built-in (atom_length, atom_concat, sub_atom, atom_chars, atom_codes, char_code, between, succ, functor, arg, =.., nth0, nth1, length, append, member, select) is modelled in Lean as a function from the resolved argument terms to the error or the ordered list of answer tuples; the relations are specified independently (Spec/Relations); per predicate soundness, completeness, exactly-once, the ISO error table and monotonicity under instantiation are kernel-checked theorems for ALL argument terms of the modes (text/integer predicates) resp. for all calls on ground data (structural predicates), and the UTF-8 byte-level loops of the Go code are proved equal to splitting the code-point list. The model is tied to the Go code by the c16.rel correspondence stream (answers compared as ordered lists) with the executable specification as brute-force oracle.",
-        level_note="Trusted: Lean kernel; the hand-written model (checked by differential runs, not proved); harness canonicalisation. Unification with non-ground data goes through a Robinson unifier that is only correspondence-checked (C02 is the property about unification); cyclic answers (no occurs check in the engine) are outside the model.",
-        technique="Lean 4 proofs about an executable model of each builtin (candidate enumeration + verified one-way matcher) against independent relational specifications + small-scope exhaustive model/implementation correspondence with a brute-force oracle",
+        level_text="Proof: every relational built-in (atom_length, atom_concat, sub_atom, atom_chars, atom_codes, char_code, between, succ, functor, arg, =.., nth0, nth1, length, append, member, select) is modelled in Lean as a function from the resolved argument terms to the ISO error or the ordered list of answer tuples, and specified independently as a relation on tuples (Spec/Relations). Kernel-checked for ALL argument terms: the answers of the eight text/integer predicates are exactly the tuples of the relation that are instances of the call, each once (Exact: sound, complete, nodup), with the ISO error table (ErrorsOk) and monotonicity under instantiation (C16_monotone); functor/3 in all modes, arg/3, =../2, nth0/nth1 on arbitrary non-ground data (most-general-unifier law of the model's unifier proved), length/2 for proper lists, generating a list of given length, and the infinite enumeration per prefix; soundness of member/2, select/3 (SLD over the clauses regenerated from bootstrap.pl) and append/3 for all arguments; the UTF-8 byte-level loops of the Go code equal the code-point splits (text_is_chars). The model is tied to the Go code by the c16.rel stream (small-scope exhaustive + random, answers compared as ordered lists) with the executable specification as brute-force oracle.",
+        level_note="Trusted: Lean kernel; the hand-written model (checked by differential runs, not proved); harness canonicalisation; Lean core's UTF-8 library as the definition of UTF-8. Open (stated, not proved): completeness/exactly-once of member/2, select/3 and of append/3 splitting a list (their soundness is proved; the stream's oracle checks completeness by brute force). Unification with non-ground data uses a Robinson unifier with fuel; theorems about it assume the fuel sufficed (UnifyDefined). Cyclic answers (the engine has no occurs check) are outside the model.",
+        technique="Lean 4 proofs about an executable model of each builtin (candidate enumeration + verified one-way matcher / most general unifier, SLD soundness over regenerated clauses) against independent relational specifications + small-scope exhaustive model/implementation correspondence with a brute-force oracle",
         lean_module="PrologVerif.Properties.C16",
         ns="PrologVerif.C16",
         streams=[dict(name="c16.rel", quick=30000, thorough=100000)],
-        rule="calls of the 17 predicates: ALL atoms/lists up to length 2 (quick) / 3 (thorough, sampled in quick) over {a, b, e-acute, euro sign, emoji, empty} x ALL instantiation patterns of the tuples of the relation plus non-members, non-linear patterns, ill-typed and out-of-range arguments; integer grids near 0 and near minInt/maxInt; random longer texts over the UTF-8 length boundaries; infinite enumerations cut after k answers; non-trivial = at least 2 answers or multi-byte text in the call; distinct = distinct case text",
+        rule="calls of the 17 predicates: ALL atoms/lists up to length 2 (quick; the next scope is sampled) / 3 (thorough: exhaustive) over {a, b, e-acute, euro sign, emoji, empty} x ALL instantiation patterns of the tuples of the relation plus non-members, non-linear patterns, byte-length decoys, ill-typed and out-of-range arguments; integer grids near 0 and near minInt/maxInt; random longer texts over the UTF-8 length boundaries (incl. U+FFFD, surrogate codes); infinite enumerations cut after k answers; non-trivial = at least 2 answers or multi-byte text in the call; distinct = distinct case text",
         trusted=[
-            "modelled (hand-written, correspondence-checked): engine/builtin.go AtomLength, AtomConcat, SubAtom, checkPositiveInteger, AtomChars, AtomCodes, CharCode, Between, Succ, Functor, Arg, Univ, Nth0/Nth1/nth, Length, lengthRundown, lengthAddendum, SkipMaxList, Append, appendLists; engine/iterator.go ListIterator (acyclic lists); engine/compound.go charList/codeList; engine/malloc.go makeSlice (as a size threshold)",
+            "modelled (hand-written, correspondence-checked): engine/builtin.go AtomLength, AtomConcat, SubAtom, checkPositiveInteger, AtomChars, AtomCodes, CharCode, Between, Succ, Functor, Arg, Univ, Nth0/Nth1/nth, Length, lengthRundown, lengthAddendum, SkipMaxList, Append, appendLists; engine/iterator.go ListIterator (acyclic lists); engine/compound.go charList/codeList; engine/malloc.go makeSlice (as a size threshold); Go's range-over-string / []rune conversion (Model/Utf8, proved equal to code-point splitting)",
             "regenerated from source on every run: the clauses of member/2 and select/3 = bootstrap.pl read by the real parser (Generated/Bootstrap.lean); C16_bootstrap_tie is re-proved against it by kernel evaluation and the model runs SLD resolution over exactly these clauses",
-            "not modelled: Env.Unify itself (replaced by a verified one-way matcher when one side is ground, by an unverified Robinson unifier otherwise); cyclic terms; the atom table (atoms are their text); host memory limits (allocation requests between 2^20 and 2^44 cells are not generated)",
+            "not modelled: Env.Unify itself (replaced by a verified one-way matcher when one side is ground and by a Robinson unifier whose soundness and most-general-unifier property are proved, up to fuel); cyclic terms; the atom table (atoms are their text — defect D22 was exactly a violation of this); host memory limits (allocation requests between 2^20 and 2^44 cells are not generated)",
             "Lean core's String/UTF-8 library (String.toList, String.ofList, String.utf8EncodeChar, ByteArray.utf8DecodeChar? and their lemmas) as the definition of UTF-8",
         ],
-        modelled={"hand_modelled": ["AtomLength", "AtomConcat", "SubAtom", "AtomChars", "AtomCodes", "CharCode", "Between", "Succ", "Functor", "Arg", "Univ", "nth", "Length", "lengthRundown", "lengthAddendum", "SkipMaxList", "Append", "appendLists", "ListIterator"],
-                  "regenerated": ["bootstrap.pl member/2, select/3"], "observed_only": ["Env.Unify on non-ground data", "makeSlice memory check"]},
+        modelled={"hand_modelled": ["AtomLength", "AtomConcat", "SubAtom", "AtomChars", "AtomCodes", "CharCode", "Between", "Succ", "Functor", "Arg", "Univ", "nth", "Length", "lengthRundown", "lengthAddendum", "SkipMaxList", "Append", "appendLists", "ListIterator", "range-over-string", "[]rune(s)"],
+                  "regenerated": ["bootstrap.pl member/2, select/3"], "observed_only": ["Env.Unify on non-ground data", "makeSlice memory check", "atom table"]},
         assumptions=["argument terms are resolved and acyclic; integer constants lie in the 64-bit range",
-                     "calls on which the missing occurs check of the engine would build a cyclic term are excluded (the generators are NSTO by construction)"],
+                     "calls on which the missing occurs check of the engine would build a cyclic term are excluded (the generators are NSTO by construction)",
+                     "theorems about unification with non-ground data: the Robinson unifier of the model finished within its fuel (UnifyDefined; trivially true when one side is ground)"],
     ),
     "C18": dict(
         level_text="Proof: the operator-table state machine (Op/validateOp/CurrentOp and the operators methods) is modelled in Lean; for ALL histories of op/3 calls with arbitrary argument terms the ISO invariant (C18_inv), atomicity of failed updates (C18_atomic), the exact effect of successful updates (C18_update_exact: latest wins, 0 removes, other classes kept) and exactness of current_op/3 (C18_current_op_exact) are kernel-checked theorems, the default table being regenerated from bootstrap.pl. The model is tied to the Go code by the c18.hist correspondence stream (impl vs model, plus an independent executable ISO specification as oracle, plus reader/writer probes).",
